@@ -1,5 +1,6 @@
 import Lean.Data.Json
 import DurableModel
+import DriverLib.SerdesGlue
 /-! JSON glue between the line protocol and the model's executable definitions (trusted). -/
 open Lean
 
@@ -81,6 +82,7 @@ def handleLock (c : String) (j : Json) : Json :=
 def handle (c : String) (j : Json) : Json :=
   if c.startsWith "ident." then handleIdent c j
   else if c.startsWith "lock." then handleLock c j
+  else if c.startsWith "serdes." then SerdesGlue.handle c j
   else err ("unknown-component " ++ c)
 
 end DriverLib
